@@ -96,6 +96,8 @@ type progOpts struct {
 	jsSafe     bool // stay inside the subset both backends define (C04)
 	taint      bool
 	directives bool
+	spread     bool // C19: put (most) commands on lines of their own, so that line numbers discriminate
+	allHeader  bool // C19: every template declares its params in the header (no soydoc comment in the file)
 	scope      bool // C02: small name pool (shadowing), scope probes, aliases, attribute-style params, more data="all"/data="$e"
 	// options added for C09 (all off by default; none consumes randomness when off)
 	ij          bool                  // some prints read the injected data: {$ij.s}, {$ij.n}
@@ -120,7 +122,19 @@ type progGen struct {
 	alias map[string]map[string]bool // namespace of the caller's file -> namespaces it aliases (scope option)
 }
 
-func (g *progGen) feat(s string)      { g.feats[s]++ }
+func (g *progGen) feat(s string) { g.feats[s]++ }
+
+// nl is a line break between commands when the spread option is on (a text run of white space
+// containing a newline is dropped by the scanner, so the program is the same program).
+func (g *progGen) nl() string {
+	if !g.o.spread {
+		return ""
+	}
+	if g.r.Chance(85) {
+		return "\n"
+	}
+	return ""
+}
 func (g *progGen) pk(ks ...kind) kind { return ks[g.r.Intn(len(ks))] }
 
 func (g *progGen) fresh(prefix string) string {
@@ -510,28 +524,28 @@ func (g *progGen) block(env genv, d int, n int) string {
 			}
 		case c < 11 && d > 0:
 			g.feat("if")
-			sb.WriteString("{if " + g.expr(env, kBool, d-1) + "}" + g.block(env, d-1, 1+g.r.Intn(2)))
+			sb.WriteString("{if " + g.expr(env, kBool, d-1) + "}" + g.nl() + g.block(env, d-1, 1+g.r.Intn(2)))
 			for g.r.Chance(30) {
 				g.feat("elseif")
-				sb.WriteString("{elseif " + g.expr(env, kBool, d-1) + "}" + g.block(env, d-1, 1))
+				sb.WriteString("{elseif " + g.expr(env, kBool, d-1) + "}" + g.nl() + g.block(env, d-1, 1))
 			}
 			if g.r.Bool() {
-				sb.WriteString("{else}" + g.block(env, d-1, 1))
+				sb.WriteString("{else}" + g.nl() + g.block(env, d-1, 1))
 			}
 			sb.WriteString("{/if}")
 		case c < 12 && d > 0:
 			g.feat("switch")
 			k := g.pk(kInt, kStr)
-			sb.WriteString("{switch " + g.expr(env, k, d-1) + "}")
+			sb.WriteString("{switch " + g.expr(env, k, d-1) + "}" + g.nl())
 			for j := 0; j < 1+g.r.Intn(3); j++ {
 				sb.WriteString("{case " + g.expr(env, k, 0))
 				if g.r.Chance(30) {
 					sb.WriteString(", " + g.expr(env, k, 0))
 				}
-				sb.WriteString("}" + g.block(env, d-1, 1))
+				sb.WriteString("}" + g.nl() + g.block(env, d-1, 1))
 			}
 			if g.r.Bool() {
-				sb.WriteString("{default}" + g.block(env, d-1, 1))
+				sb.WriteString("{default}" + g.nl() + g.block(env, d-1, 1))
 			}
 			sb.WriteString("{/switch}")
 		case c < 14 && d > 0:
@@ -549,18 +563,18 @@ func (g *progGen) block(env genv, d int, n int) string {
 				v.name = g.r.Pick(scopeNames)
 				g.noteShadow(env, v.name, "loop")
 			}
-			sb.WriteString("{foreach $" + v.name + " in " + g.expr(env, k, d-1) + "}")
+			sb.WriteString("{foreach $" + v.name + " in " + g.expr(env, k, d-1) + "}" + g.nl())
 			sb.WriteString(g.block(env.withLoop(v), d-1, 1+g.r.Intn(2)))
 			if k == kEList || g.r.Chance(20) {
 				g.feat("ifempty")
-				sb.WriteString("{ifempty}" + g.block(env, d-1, 1))
+				sb.WriteString("{ifempty}" + g.nl() + g.block(env, d-1, 1))
 			}
 			sb.WriteString("{/foreach}")
 		case c < 15 && d > 0:
 			g.feat("for-range")
 			v := gvar{name: "r" + g.fresh(""), k: kInt}
 			args := g.r.Pick([]string{"3", "1, 4", "0, 6, 2", "0"})
-			sb.WriteString("{for $" + v.name + " in range(" + args + ")}" + g.block(env.withLoop(v), d-1, 1) + "{/for}")
+			sb.WriteString("{for $" + v.name + " in range(" + args + ")}" + g.nl() + g.block(env.withLoop(v), d-1, 1) + "{/for}")
 		case c < 17:
 			g.feat("let")
 			k := g.printable()[g.r.Intn(6)]
@@ -593,7 +607,7 @@ func (g *progGen) block(env genv, d int, n int) string {
 			g.feat("let-content")
 			used := false
 			v := gvar{name: "c" + g.fresh(""), k: kStr, used: &used}
-			sb.WriteString("{let $" + v.name + "}" + g.block(env, d-1, 1+g.r.Intn(2)) + "{/let}")
+			sb.WriteString("{let $" + v.name + "}" + g.nl() + g.block(env, d-1, 1+g.r.Intn(2)) + "{/let}")
 			env = env.with(v)
 			pendingLets = append(pendingLets, v)
 		case c < 20 && d > 0:
@@ -612,10 +626,11 @@ func (g *progGen) block(env genv, d int, n int) string {
 			sb.WriteString(g.msg(env, d))
 		case c < 24 && !g.o.noLog && d > 0:
 			g.feat("log")
-			sb.WriteString("{log}" + g.block(env, d-1, 1) + "{/log}")
+			sb.WriteString("{log}" + g.nl() + g.block(env, d-1, 1) + "{/log}")
 		default:
 			sb.WriteString(g.r.Pick(rawTexts))
 		}
+		sb.WriteString(g.nl())
 	}
 	for _, v := range pendingLets {
 		if !*v.used {
@@ -821,24 +836,24 @@ func (g *progGen) call(env genv, d int) string {
 			g.feat("param-content")
 			if g.o.scope && g.r.Chance(25) {
 				g.feat("param-attr-syntax")
-				params = append(params, "{param key=\""+p.name+"\"}"+g.block(env, d-1, 1)+"{/param}")
+				params = append(params, "{param key=\""+p.name+"\"}"+g.nl()+g.block(env, d-1, 1)+"{/param}"+g.nl())
 			} else {
-				params = append(params, "{param "+p.name+"}"+g.block(env, d-1, 1)+"{/param}")
+				params = append(params, "{param "+p.name+"}"+g.nl()+g.block(env, d-1, 1)+"{/param}"+g.nl())
 			}
 		} else {
 			ex := g.expr(env, k, d-1)
 			if g.o.scope && g.r.Chance(25) && !strings.ContainsAny(ex, "\"\\\n") {
 				g.feat("param-attr-syntax")
-				params = append(params, "{param key=\""+p.name+"\" value=\""+ex+"\" /}")
+				params = append(params, "{param key=\""+p.name+"\" value=\""+ex+"\" /}"+g.nl())
 			} else {
-				params = append(params, "{param "+p.name+": "+ex+" /}")
+				params = append(params, "{param "+p.name+": "+ex+" /}"+g.nl())
 			}
 		}
 	}
 	if len(params) == 0 {
 		sb.WriteString(" /}")
 	} else {
-		sb.WriteString("}" + strings.Join(params, "") + "{/call}")
+		sb.WriteString("}" + g.nl() + strings.Join(params, "") + "{/call}")
 	}
 	return sb.String()
 }
@@ -879,6 +894,9 @@ func genBundle(r *hx.Rand, o progOpts) (files []srcFile, entry string, dataSets 
 	recPool := []gparam{{"a", kInt, false}, {"b", kStr, false}, {"c", kListInt, false}, {"opt", kOptInt, true}, {"v", kOptInt, true}}
 	for i := 0; i < nT; i++ {
 		t := &gtemplate{short: fmt.Sprintf("t%d", i), header: r.Chance(30)}
+		if o.allHeader {
+			t.header = true
+		}
 		t.ns = nss[r.Intn(len(nss))]
 		if i == 0 {
 			t.ns = nss[0]
